@@ -1,4 +1,5 @@
 import Cfi.Line
+import Cfi.World
 /-! C14 — property theorems (the value slots of shared `Field` objects are
 scratch: what a line writes does not depend on them; World-level locality
 theorems are added in `Props/C14` as the model grows). -/
@@ -27,5 +28,179 @@ takes no slot argument at all in the model, mirroring that every slot it
 gathers it has just written (D3 was the exception in delimited mode). -/
 theorem read_is_function_of_line (l : Line) (d₁ d₂ : Data) (h : d₁ = d₂) : l.read d₁ = l.read d₂ := by
   rw [h]
+
+end Props.C14
+
+/-! ### World-level locality and non-interference -/
+namespace Props.C14
+open Cfi Cfi.World
+
+/-- **Frame (registers)**: an operation that does not name register `j` leaves
+its data untouched — whatever it does to other registers, files, or the shared
+scratch slots. -/
+theorem step_frame_reg (w : World) (op : Op) (j : Nat) (h : namesReg op j = false) :
+    (step w op).1.regs j = w.regs j := by
+  cases op with
+  | newReg i data => simp [namesReg] at h; simp [step, upd, Ne.symm h]
+  | regRead i line =>
+    simp [namesReg] at h
+    simp only [step]
+    cases w.regs i with
+    | none => rfl
+    | some _ => cases w.reg.readDataText line <;> simp [upd, Ne.symm h]
+  | regWrite i => simp only [step]; cases w.regs i <;> rfl
+  | regSet i k v =>
+    simp [namesReg] at h
+    simp only [step]
+    cases w.regs i <;> simp [upd, Ne.symm h]
+  | newFile f => rfl
+  | fileAppend f i => simp only [step]; cases w.files f <;> rfl
+  | fileRemoveLast f => simp only [step]; cases w.files f <;> rfl
+  | fileWrite f => rfl
+
+/-- **Frame (files)**: an operation that does not name file `g` leaves its
+container untouched. -/
+theorem step_frame_file (w : World) (op : Op) (g : Nat) (h : namesFile op g = false) :
+    (step w op).1.files g = w.files g := by
+  cases op with
+  | newReg i data => rfl
+  | regRead i line =>
+    simp only [step]
+    cases w.regs i with
+    | none => rfl
+    | some _ => cases w.reg.readDataText line <;> rfl
+  | regWrite i => simp only [step]; cases w.regs i <;> rfl
+  | regSet i k v => simp only [step]; cases w.regs i <;> rfl
+  | newFile f => simp [namesFile] at h; simp [step, upd, Ne.symm h]
+  | fileAppend f i =>
+    simp [namesFile] at h
+    simp only [step]; cases w.files f <;> simp [upd, Ne.symm h]
+  | fileRemoveLast f =>
+    simp [namesFile] at h
+    simp only [step]; cases w.files f <;> simp [upd, Ne.symm h]
+  | fileWrite f => rfl
+
+/-- the shared layout is never modified by an operation (D11 was the exception) -/
+theorem step_reg_def (w : World) (op : Op) : (step w op).1.reg = w.reg := by
+  cases op with
+  | newReg i data => rfl
+  | regRead i line =>
+    simp only [step]
+    cases w.regs i with
+    | none => rfl
+    | some _ => cases w.reg.readDataText line <;> rfl
+  | regWrite i => simp only [step]; cases w.regs i <;> rfl
+  | regSet i k v => simp only [step]; cases w.regs i <;> rfl
+  | newFile f => rfl
+  | fileAppend f i => simp only [step]; cases w.files f <;> rfl
+  | fileRemoveLast f => simp only [step]; cases w.files f <;> rfl
+  | fileWrite f => rfl
+
+/-- **Locality (registers)**: the new data of the register an operation names is
+a function of its old data, the operation's arguments and the (immutable)
+layout only — not of the scratch slots, not of any other object. -/
+theorem step_local_reg (w₁ w₂ : World) (op : Op) (j : Nat) (hn : namesReg op j = true)
+    (hreg : w₁.reg = w₂.reg) (hd : w₁.regs j = w₂.regs j) :
+    (step w₁ op).1.regs j = (step w₂ op).1.regs j := by
+  cases op with
+  | newReg i data => simp [namesReg] at hn; subst hn; simp [step, upd, hreg]
+  | regRead i line =>
+    simp [namesReg] at hn; subst hn
+    simp only [step, ← hd, hreg]
+    cases w₁.regs i with
+    | none => simp [← hd]
+    | some _ => cases w₂.reg.readDataText line <;> simp [upd, hd]
+  | regWrite i =>
+    simp [namesReg] at hn; subst hn
+    simp only [step, ← hd]
+    cases h : w₁.regs i <;> simp [h, ← hd]
+  | regSet i k v =>
+    simp [namesReg] at hn; subst hn
+    simp only [step, ← hd]
+    cases w₁.regs i with
+    | none => exact hd
+    | some d => simp [upd]
+  | newFile f => simp [namesReg] at hn
+  | fileAppend f i => simp [namesReg] at hn
+  | fileRemoveLast f => simp [namesReg] at hn
+  | fileWrite f => simp [namesReg] at hn
+
+/-- **What a register writes is a function of its own data** (well-formed data:
+one entry per field): two worlds that agree on the register's data and on the
+layout produce the same text, whatever the shared fields hold. -/
+theorem write_output_local (w₁ w₂ : World) (d : List Val) (hreg : w₁.reg = w₂.reg)
+    (hs : w₁.slots.length = w₂.slots.length) (hwf : w₁.slots.length ≤ d.length) :
+    regOutput w₁ d = regOutput w₂ d := by
+  unfold regOutput
+  rw [hreg]
+  by_cases he : RegDef.isEmpty d = true
+  · simp [he]
+  · simp only [he, Bool.false_eq_true, if_false]
+    have h1 : (Val.none :: w₁.slots).length = (Val.none :: w₂.slots).length := by
+      simp only [List.length_cons, hs]
+    have h2 : (Val.none :: w₁.slots).length ≤ (Val.str w₂.reg.ident :: d).length := by
+      simp only [List.length_cons]; omega
+    rw [write_independent_of_slots (w₂.reg.line .text) _ _ _ h1 h2]
+
+/-- **Non-interference (registers)**: over ANY interleaved history, the data of
+register `j` is what the sub-history of the operations naming `j` alone
+produces — construct, read, write, mutation of other registers, of files, of
+the shared fields' scratch values cannot be observed through `j`. -/
+theorem reg_noninterference (ops : List Op) (j : Nat) :
+    ∀ (w₁ w₂ : World), w₁.reg = w₂.reg → w₁.regs j = w₂.regs j →
+      (run w₁ ops).regs j = (run w₂ (ops.filter fun op => namesReg op j)).regs j := by
+  induction ops with
+  | nil => intro w₁ w₂ _ hd; exact hd
+  | cons op ops ih =>
+    intro w₁ w₂ hreg hd
+    simp only [run, List.foldl_cons, List.filter_cons]
+    cases hn : namesReg op j with
+    | false =>
+      simp only [Bool.false_eq_true, if_false]
+      apply ih
+      · rw [step_reg_def]; exact hreg
+      · rw [step_frame_reg w₁ op j hn]; exact hd
+    | true =>
+      simp only [if_true, List.foldl_cons]
+      apply ih
+      · rw [step_reg_def, step_reg_def]; exact hreg
+      · exact step_local_reg w₁ w₂ op j hn hreg hd
+
+/-- **Non-interference (files)**: the member list of a file is what the operations
+naming that file alone produce. -/
+theorem file_noninterference (ops : List Op) (g : Nat) :
+    ∀ (w₁ w₂ : World), w₁.files g = w₂.files g →
+      (run w₁ ops).files g = (run w₂ (ops.filter fun op => namesFile op g)).files g := by
+  induction ops with
+  | nil => intro w₁ w₂ hd; exact hd
+  | cons op ops ih =>
+    intro w₁ w₂ hd
+    simp only [run, List.foldl_cons, List.filter_cons]
+    cases hn : namesFile op g with
+    | false =>
+      simp only [Bool.false_eq_true, if_false]
+      apply ih
+      rw [step_frame_file w₁ op g hn]; exact hd
+    | true =>
+      simp only [if_true, List.foldl_cons]
+      apply ih
+      cases op with
+      | newFile f => simp [namesFile] at hn; subst hn; simp [step, upd]
+      | fileAppend f i =>
+        simp [namesFile] at hn; subst hn
+        simp only [step, ← hd]; cases w₁.files f <;> simp [upd, ← hd]
+      | fileRemoveLast f =>
+        simp [namesFile] at hn; subst hn
+        simp only [step, ← hd]; cases w₁.files f <;> simp [upd, ← hd]
+      | fileWrite f => simp [step, hd]
+      | newReg i data => simp [namesFile] at hn
+      | regRead i line => simp [namesFile] at hn
+      | regWrite i => simp [namesFile] at hn
+      | regSet i k v => simp [namesFile] at hn
+
+/-- files constructed without arguments are independent: a fresh empty container each -/
+theorem new_files_independent (w : World) (f g : Nat) (h : f ≠ g) (i : Nat) :
+    (run w [.newFile f, .newFile g, .fileAppend f i]).files g = some [] := by
+  simp [run, step, upd, h, Ne.symm h]
 
 end Props.C14
